@@ -184,7 +184,10 @@ def check_plus_hc(prog, rep):
                               c.lineno)
         if f.name in ('add_multi_coupling', 'add_local_term'):
             rep.instance('PLUSHC-reverse', {'function': q})
-            if 'reversed(' not in ' '.join(unparse(s) for s in blk.body):
+            loops = [unparse(s.iter) for s in ast.walk(f) if isinstance(s, ast.For) and
+                     ('plus_hc', True) in {(t, pol) for t, pol, _ in guards_of(f, s)}]
+            if 'reversed(' not in ' '.join([unparse(s) for s in blk.body] + loops) and \
+                    '[::-1]' not in ' '.join([unparse(s) for s in blk.body] + loops):
                 rep.violation('PLUSHC-reverse', m, q, 'reverse-order',
                               'the h.c. of a product of operators reverses their order',
                               blk.lineno)
